@@ -387,7 +387,10 @@ func checkOracles(r *Result, sc *scenario) {
 		byz[b] = true
 	}
 	for _, nd := range sc.nodes {
-		for _, b := range nd.blocks {
+		for bi, b := range nd.blocks {
+			if nd == sc.nodes[0] && bi > 0 && b.Timestamp() < nd.blocks[bi-1].Timestamp() {
+				r.Inc("blocks_with_a_timestamp_below_the_previous_block", 1)
+			}
 			ri, err := nd.store.GetRound(b.RoundReceived())
 			if err != nil {
 				continue
@@ -651,6 +654,16 @@ func runHGWith(r *Result, thorough bool, prop string, rng *rand.Rand) {
 		if prop != "C18" && !dynamic && i%6 == 1 {
 			o = hermitOpts(rng, thorough)
 			r.Inc("hermit_scenarios", 1)
+		}
+		if prop == "C18" && i%2 == 0 {
+			// a long, busy, well-connected run (many blocks) in which one honest clock runs fast and is
+			// corrected: the median of a later round lies below an earlier block's timestamp
+			o = genOpts{n0: 4 + rng.Intn(4), steps: 280 + rng.Intn(120), txRate: 2, staleOp: rng.Intn(2) == 0, byz: o.byz}
+			if len(o.byz) > 0 && (o.byz[0] >= o.n0 || 3*len(o.byz) >= o.n0) {
+				o.byz = nil
+			}
+			o.skew = true
+			r.Inc("scenarios_with_an_honest_clock_corrected_backwards", 1)
 		}
 		if prop == "C18" && len(o.byz) == 0 {
 			o.n0 = 4 + rng.Intn(4)
